@@ -282,6 +282,7 @@ pub fn run(ctx: &Ctx) -> PropResult {
             }
         }
     }));
+    wls.push(Workload::cases("api_walks", ctx.n(30_000, 1_500_000), |rec, _, rng| super::walk::walk(rec, rng, "C10", super::walk::Family::Offsets)));
     let out = run_workloads(ctx, wls);
     let mut meta = PropMeta::default();
     meta.exhaustive = true;
@@ -292,7 +293,7 @@ pub fn run(ctx: &Ctx) -> PropResult {
     meta.required_bins = vec![
         "shift/across-0001-01-01", "shift/across-year-end", "shift/across-month-end", "shift/across-midnight", "shift/same-date",
         "offset/with-seconds", "offset/with-minutes", "offset/whole-hours", "time/wraps-below-midnight", "time/wraps-past-midnight", "time/no-wrap",
-        "offset-ctor/accept", "offset-ctor/reject",
+        "offset-ctor/accept", "offset-ctor/reject", "walk/with-judged-steps",
     ];
     meta.assumptions = vec!["instants built/read as in C03".into()];
     let _ = DateTime::default();
